@@ -54,12 +54,15 @@ def run(names):
             sh("git -C /repo checkout -- .")
         line = [l for l in o.splitlines() if l.startswith("  class=")]
         verdict = "CAUGHT" if rc == 1 else "MISSED" if rc == 0 else "INFRA(%d)" % rc
+        # a change whose own demo no longer fails on the repaired tree breaks nothing any more
+        if verdict == "MISSED" and meta.get("neutralised_by"): verdict = "NEUTRAL"
         print("%-14s %-8s %5.1fs %s" % (name, verdict, time.time() - t0, line[0].strip()[:170] if line else ""))
         meta["check_result"] = {"verdict": verdict, "first_violation": line[0].strip()[:400] if line else "", "cmd": "git -C /repo apply patch.diff; bin/check %s quick; git -C /repo checkout -- ." % pid}
         json.dump(meta, open(os.path.join(d, "meta.json"), "w"), indent=1)
         res.append((name, verdict))
     shutil.rmtree(os.path.join(VERIF, "build", "seed-evidence"), ignore_errors=True)
-    print("%d changes: %d caught, %d missed" % (len(res), sum(1 for r in res if r[1] == "CAUGHT"), sum(1 for r in res if r[1] == "MISSED")))
+    print("%d changes: %d caught, %d missed" % (len(res), sum(1 for r in res if r[1] == "CAUGHT"), sum(1 for r in res if r[1] == "MISSED")) +
+          "".join(", %d %s" % (sum(1 for r in res if r[1] == k), k.lower()) for k in sorted(set(r[1] for r in res)) if k not in ("CAUGHT", "MISSED")))
 
 if sys.argv[1] == "verify": verify(sys.argv[2], sys.argv[3], sys.argv[4] if len(sys.argv) > 4 else "a")
 else: run(sys.argv[2:])
